@@ -12,7 +12,7 @@ open SaVerif.Txn
 
 theorem init_inv (rs : ResetStyle) (hrs : rs ≠ .none) (ls : Listener) (eo : List Bool) (rc : Option Nat) :
     Inv (Conn.connect (DB.init rs ls eo rc)) :=
-  connect_inv (fun r hr => by simp [DB.init] at hr) hrs (heldIso_clean rfl rfl)
+  connect_inv (fun r hr => by simp [DB.init] at hr) ⟨hrs, rfl⟩ (heldIso_clean rfl rfl)
 
 /-- **checkin_clean**: after EVERY operation sequence — any interleaving of begin,
     begin_nested, statements, commit, rollback, handle and context-manager operations,
@@ -139,6 +139,45 @@ example :
     (c.step .gc).1.db.idle = [none] ∧
     (((c.step .close).1.step .connect).1.db.raw.rid, ((c.step .close).1.step .connect).1.db.raw.working)
       = (1, [2]) := by decide
+
+/-! ## create_engine(skip_autocommit_rollback=True)
+
+The theorems above are stated for engines without `skip_autocommit_rollback` (`DB.init`'s
+default).  With the option the dialect skips `dbapi_connection.rollback()` — in
+`Connection._rollback_impl` AND in the pool's reset-on-return — exactly when the DBAPI
+connection ITSELF reports driver-level autocommit; nothing recorded on the Connection object
+takes part in the decision. -/
+
+/-- whatever options the Connection has recorded: on a DBAPI connection that is not in
+    autocommit the ROLLBACK is emitted, with or without `skip_autocommit_rollback` -/
+theorem rollback_not_skipped_when_transactional (c : Conn) (hd : c.hasDbapi = true)
+    (ha : c.db.raw.autocommit = false) (hf : c.db.faults = []) :
+    c.rollbackImpl = ({ c with db := c.db.rollback }, .ok) := by
+  simp [Conn.rollbackImpl, hd, DB.skipsRollback, ha, dbapiCall_nofault _ _ _ hf]
+
+/-- … and the pool's reset-on-return rolls such a connection back as well (unless the
+    Connection has just done so): the record put back sees the committed rows -/
+theorem reset_not_skipped_when_transactional (db : DB) (hr : db.reset = .rollback)
+    (ha : db.raw.autocommit = false) (hf : db.faults = []) :
+    (db.checkin false).raw.working = db.committed ∧ (db.checkin false).raw.saves = [] := by
+  simp [DB.checkin, hr, DB.skipsRollback, ha, takeFault_nil _ _ hf, DB.rollback]
+
+/-- with the option the invariant does NOT hold for every history: a SAVEPOINT opened while
+    the DBAPI connection is in driver-level autocommit survives close() — the rollback is
+    skipped by the dialect, and close() tells the pool that the transaction was reset (on
+    SQLite the SAVEPOINT starts a transaction even in autocommit mode: the next user of the
+    pooled connection inherits and may commit it; reproduced on the real code, see the
+    report) -/
+theorem skip_autocommit_savepoint_counterexample :
+    ¬ PoolClean ((Conn.connect (DB.init .rollback .none [] none true)).run
+        [.autocommit, .beginNested, .exec (.ins 1), .close]).db := by
+  intro h
+  have := h (⟨0, 1, [1], [(1, [])], false, false, false, []⟩ : Raw) (by decide)
+  simp at this
+/-- without the option the same history is fine -/
+example : ((Conn.connect (DB.init .rollback)).run
+    [.autocommit, .beginNested, .exec (.ins 1), .close]).db.idle.map (fun o => o.map (·.saves)) = [some []] := by
+  decide
 
 /-! ## non-vacuity -/
 
